@@ -58,7 +58,7 @@ func c04BytesEq(a, b []byte) bool {
 }
 
 //verif:entry tier=quick,thorough steps=3000000 preempt=1 cover=completed,timedout,cancelled,panicked,blocked,lateWrite
-//verif:doc REST TimeoutHandler: timeout 1 s, caller context optionally cancelled at an arbitrary point or carrying an earlier (0.5 s) or later (2 s) deadline; the handler performs 1 (quick) / 2 (thorough) operations chosen symbolically from Header().Set, WriteHeader(symbolic code 100..599), Write(2 symbolic bytes), yielding in between, then returns, panics or blocks forever ignoring the context; the deadline timer fires at any scheduling point; all interleavings at lock/channel granularity.
+//verif:doc REST TimeoutHandler: timeout 1 s, caller context optionally cancelled at an arbitrary point or carrying an earlier (0.5 s) or later (2 s) deadline; the handler performs 1 (quick; plus the fixed sequence Write then WriteHeader) / 2 (thorough) operations chosen symbolically from Header().Set, WriteHeader(symbolic code 100..599), Write(2 symbolic bytes), yielding in between, then returns, panics or blocks forever ignoring the context; the deadline timer fires at any scheduling point; all interleavings at lock/channel granularity.
 func Verif_C04_Rest() {
 	dt := int64(time.Second) // the interleaving (the timer fires at any scheduling point) is what matters here; symbolic durations are in Verif_C04_Deadline
 	nops := 1
@@ -74,6 +74,10 @@ func Verif_C04_Rest() {
 		case 2:
 			ops[i].chunk = rt.Bytes("chunk", 2)
 		}
+	}
+	if rt.Tier() == 0 && rt.Choose("bodyThenStatus", 2) == 1 {
+		// quick: one fixed two-step sequence - a body write commits status 200, a later WriteHeader is ignored
+		ops = []c04Op{{kind: 2, chunk: rt.Bytes("chunk", 2)}, {kind: 1, code: int(rt.Int("status", 100, 599))}}
 	}
 	ending := rt.Choose("ending", 3) // 0 return, 1 panic, 2 block forever
 	never := make(chan struct{})
